@@ -112,6 +112,7 @@ def run(ctx, F):
     comment_producers(ctx, prog)
     text_rewriters(ctx, prog)
     buffer_trims(ctx, tree)
+    values_folded(ctx, prog)
     ctx.explanation = ("Bracket-height verifier over the AST of all CssBuf/Formatter writers of the css, output and value modules (summaries by fixpoint; branches, match arms, loop bodies, closures, exits); "
                        "CFG pairing of start_block/end_block; shape of the tail of into_buffer; provenance of the is_ascii test and inventory of the marker literals; classification of every emitted literal that contains a line break.")
 
@@ -148,6 +149,30 @@ def text_rewriters(ctx, prog):
                 ctx.fail("F8-text-rewriters", key, f"{mir.short(dname)} transforms text at character level with {api}; this site is not in the reviewed table: "
                          "a transformation of emitted text can drop or add a bracket that the literal analysis cannot see", where=b.where(bi))
     ctx.floor("character-level text transformations in css / output", n, 10)
+
+
+def values_folded(ctx, prog):
+    """(vii) a declaration value is written on one line: every text that Property::write hands to the buffer and
+    that is a rendered value (`Value::format(..)`) passes through `replace('\\n', " ")`: a line break inside a
+    value (also inside a quoted string built at run time) must not reach compressed output."""
+    S = sym.Sym(prog, inline_depth=0)
+    b = prog.one("<css::rule::Property>::write")
+    n = 0
+    for bi, t in b.calls():
+        if not ((mir.callee_name(t) or "").endswith("CssBuf>::add_str") or (mir.callee_name(t) or "").endswith("CssBuf>::add_one")):
+            continue
+        for a in t["args"][1:]:
+            term = sym.strip_transparent(S.operand(b, a))
+            if "Value>::format" not in repr(term):
+                continue
+            n += 1
+            folded = term[0] == "call" and term[1].endswith("<str>::replace") and len(term[2]) == 3 and term[2][1] == ("const", "\n") and term[2][2] == ("const", " ")
+            key = f"Property::write|value text#{n}"
+            if folded:
+                ctx.ok("F4-value-folded", key, None)
+            else:
+                ctx.fail("F4-value-folded", key, f"Property::write hands the rendered value `{sym.show(term)[:120]}` to the buffer without replacing line breaks by spaces: a value containing a line break (e.g. a re-quoted string) breaks the one-line discipline of compressed output", where=b.where(bi))
+    ctx.floor("rendered value texts written by Property::write", n, 1)
 
 
 def _inherits_review(prog, dname, api, reviewed, fn_key):
